@@ -29,12 +29,25 @@ PROGRAMS = [
     ("deps-three", "10 HSET ( 1 , 2 ) : PLAY \"A\" : Z = POINT ( 1 , 2 )"),
     ("deps-many", '10 CLS : SOUND 1 , 2 : HCIRCLE ( 1 , 2 ) , 3 : HDRAW "U5" : PLAY "A" : Z = JOYSTK ( 0 ) : HPRINT ( 1 , 2 ) , "X" : LOCATE 1 , 2'),
     ("read-filter", "10 READ A , B , C\n20 DATA 1 , , 3"),
+    ("dim-configured", "10 DIM N$ ( 2 ) , T$ ( 3 ) , C$ ( 4 ) , K$ ( 5 ) , S$ , U$"),
 ]
+CONFIGURED = {"N$()": 20, "T$()": 30, "C$()": 40, "K$()": 50, "S$": 60}  # sizes from a configuration (option set `configured`)
 OPTION_SETS = [
     ("plain-init", dict(add_standard_prefix=False, add_suffix=False, skip_procedure_headers=True, initialize_vars=True, default_str_storage=40)),
     ("filter", dict(add_standard_prefix=False, add_suffix=False, skip_procedure_headers=True, filter_unused_linenum=True)),
     ("bundle", dict(add_standard_prefix=True, add_suffix=True, skip_procedure_headers=False, output_dependencies=True, procname="prog", initialize_vars=True)),
+    ("configured", dict(add_standard_prefix=False, add_suffix=False, skip_procedure_headers=True, initialize_vars=True, default_str_storage=70, _cfg=True)),
 ]
+
+
+def real_opts(opts):
+    """option dict for convert(): the marker _cfg stands for a CompilerConfigs object built from CONFIGURED"""
+    o = {k: v for k, v in opts.items() if k != "_cfg"}
+    if opts.get("_cfg"):
+        from coco.b09.configs import CompilerConfigs, StringConfigs
+
+        o["compiler_configs"] = CompilerConfigs(string_configs=StringConfigs(strname_to_size=dict(CONFIGURED)))
+    return o
 
 
 def modules():
@@ -44,14 +57,54 @@ def modules():
 
 
 def hashseed_outputs(src, opts, seeds):
-    code = ("import sys, json; sys.path.insert(0, %r); from coco.b09 import compiler; "
-            "print(json.dumps(compiler.convert(%r, **%r)))" % (REPO, src + "\n", opts))
+    plain = {k: v for k, v in opts.items() if k != "_cfg"}
+    cfg = ("from coco.b09.configs import CompilerConfigs, StringConfigs; kw['compiler_configs'] = CompilerConfigs(string_configs=StringConfigs(strname_to_size=%r)); " % CONFIGURED) if opts.get("_cfg") else ""
+    code = ("import sys, json; sys.path.insert(0, %r); from coco.b09 import compiler; kw = %r; %s"
+            "print(json.dumps(compiler.convert(%r, **kw)))" % (REPO, plain, cfg, src + "\n"))
     outs = {}
     for s in seeds:
         env = dict(os.environ, PYTHONHASHSEED=str(s))
         r = subprocess.run([sys.executable, "-c", code], env=env, capture_output=True, text=True, timeout=120)
         outs[s] = r.stdout if r.returncode == 0 else "ERR:" + r.stderr[-200:]
     return outs
+
+
+def cli_history(ctx):
+    """the command-line entry point called several times in one process: every call's output file is what a fresh process
+    writes for that command line (options of an earlier call do not stick)"""
+    import shutil
+    import tempfile
+
+    from coco import decb_to_b09
+
+    tmp = tempfile.mkdtemp(prefix="c12cli")
+    try:
+        inp = os.path.join(tmp, "game.bas")
+        with open(inp, "w") as f:
+            f.write('10 DIM A$ : A$ = "X" : B$ = A$ + STRING$ ( 2 , "Y" )\n20 GOTO 40\n30 PRINT "SKIPPED"\n40 PRINT A$ ; B$\n')
+        cfgp = os.path.join(tmp, "c.yaml")
+        with open(cfgp, "w") as f:
+            f.write('string_configs:\n  strname_to_size:\n    "A$": 90\n')
+        argvs = [["-s", "80", "-D"], [], ["-l", "-z"], ["-w"], ["-c", cfgp], [], ["-s", "50"], ["-D"], []]
+        for i, extra in enumerate(argvs):
+            out_a, out_b = os.path.join(tmp, f"a{i}.b09"), os.path.join(tmp, f"b{i}.b09")
+            decb_to_b09.start([inp, out_a] + extra)
+            code = "import sys; sys.path.insert(0, %r); from coco import decb_to_b09; decb_to_b09.start(%r)" % (REPO, [inp, out_b] + extra)
+            r = subprocess.run([sys.executable, "-c", code], env=dict(os.environ, PYTHONHASHSEED="0"), capture_output=True, text=True, timeout=120)
+            if r.returncode != 0:
+                raise HarnessError("fresh-process command line failed: " + r.stderr[-200:])
+            ctx.stats["obligations"] += 1
+            ctx.stats["programs"] += 1
+            ctx.stats["traces_validated_against_impl"] += 1
+            with open(out_a, newline="") as fa, open(out_b, newline="") as fb:
+                same = fa.read() == fb.read()
+            if same:
+                ctx.stats["identity"] += 1
+            else:
+                ctx.violation("history-dependent:command-line:options-of-an-earlier-call", f"call {i + 1} of start() in one process with options {extra} (earlier calls: {argvs[:i]}): output file differs from a fresh process with the same command line", {"source": "game.bas", "options": {"argv": extra}})
+                break
+    finally:
+        shutil.rmtree(tmp, ignore_errors=True)
 
 
 def config_history(ctx):
@@ -194,9 +247,11 @@ def run(tier):
         for oname, opts in OPTION_SETS:
             if oname == "bundle" and tier == "quick" and not label.startswith("deps") and label not in ("two-implicit-arrays",):
                 continue
+            if (oname == "configured") != (label == "dim-configured") and not (oname == "configured" and label in ("dim-sizes", "three-strings")):
+                continue
 
             def fn():
-                return compiler.convert(src + "\n", **opts)
+                return compiler.convert(src + "\n", **real_opts(opts))
 
             depth = 1 if tier == "quick" else (2 if oname == "bundle" else 3)
             results, cov = ndset.explore(fn, modules(), depth=depth, max_runs=20000)
@@ -226,6 +281,26 @@ def run(tier):
                     ctx.violation(f"set-order-dependent:{kind}:{label}:{oname}", f"{src!r} [{oname}]: {len(outs)} different outputs over set iteration orders, {distinct} over {len(seeds)} real hash seeds; first difference {diff}", {"source": src, "options": opts, "seeds_distinct": distinct})
                 else:
                     ctx.violation(f"set-order-dependent(unreplayed):{kind}:{label}:{oname}", f"{src!r} [{oname}]: outputs differ over modelled set orders ({diff}) but the {len(seeds)} real hash seeds tried agree", {"source": src, "options": opts})
+    # real hash seeds for a few programs whatever the schedules said: set displays and set comprehensions do not go through
+    # the name `set`, so the schedulable set class does not see them
+    sweep = [("dim-configured", "configured"), ("deps-many", "bundle"), ("three-implicit-arrays", "plain-init"), ("implicit-num-and-str-arrays", "plain-init"), ("line-references", "filter")]
+    progs = dict(PROGRAMS)
+    osets = dict(OPTION_SETS)
+    for label, oname in sweep:
+        seeds = list(range(8 if tier == "quick" else 24))
+        real = hashseed_outputs(progs[label], osets[oname], seeds)
+        ctx.stats["obligations"] += 1
+        ctx.stats["programs"] += len(seeds)
+        ctx.stats["traces_validated_against_impl"] += len(seeds)
+        if any(v.startswith("ERR:") for v in real.values()):
+            raise HarnessError(f"hash-seed run of {label}/{oname} failed: {[v for v in real.values() if v.startswith('ERR:')][0][:200]}")
+        if len(set(real.values())) == 1:
+            ctx.stats["identity"] += 1
+        else:
+            vals = list(set(real.values()))
+            la, lb = json.loads(vals[0]).split("\n"), json.loads(vals[1]).split("\n")
+            diff = [(x, y) for x, y in zip(la, lb) if x != y][:1]
+            ctx.violation(f"hash-seed-dependent:{label}:{oname}", f"{progs[label]!r} [{oname}]: {len(vals)} different outputs over PYTHONHASHSEED 0..{len(seeds) - 1}; first difference {diff}", {"source": progs[label], "options": osets[oname], "seeds_distinct": len(vals)})
     # history independence in one process
     # programs whose translation needs per-conversion state the tool keeps in module / class level objects if it is
     # careless: the HBUFF prologue, names DIMensioned by an earlier program, procedures bundled for an earlier program
@@ -233,8 +308,9 @@ def run(tier):
     HOPTS = [dict(add_standard_prefix=True, add_suffix=True, skip_procedure_headers=True, default_str_storage=40, initialize_vars=True),
              dict(add_standard_prefix=True, add_suffix=True, skip_procedure_headers=False, output_dependencies=True, procname="prog"),
              dict(add_standard_prefix=True, add_suffix=True, skip_procedure_headers=False, output_dependencies=True)]
-    seq = [(src, opts) for (_, src) in PROGRAMS[:8] for (_, opts) in OPTION_SETS] + [(src, opts) for src in HIST for opts in HOPTS]
-    nbase = 8 * len(OPTION_SETS)
+    plain_sets = [(n_, o_) for n_, o_ in OPTION_SETS if not o_.get("_cfg")]
+    seq = [(src, opts) for (_, src) in PROGRAMS[:8] for (_, opts) in plain_sets] + [(src, opts) for src in HIST for opts in HOPTS]
+    nbase = 8 * len(plain_sets)
     fresh = {}
     for i, (src, opts) in enumerate(seq):
         code = ("import sys, json; sys.path.insert(0, %r); from coco.b09 import compiler; print(json.dumps(compiler.convert(%r, **%r)))" % (REPO, src + "\n", opts))
@@ -260,6 +336,7 @@ def run(tier):
             ctx.violation(f"history-dependent:{which}:{'bundle' if opts.get('output_dependencies') else 'plain'}", f"{src!r}: output depends on what was converted before ({which})", {"source": src, "options": opts})
         ctx.stats["traces_validated_against_impl"] += 1
     config_history(ctx)
+    cli_history(ctx)
     # the same for the image decoders: a second picture decoded in the same process = that picture in a fresh process
     from vf.props import dec
 
@@ -273,6 +350,10 @@ def run(tier):
 
 def replay(rec):
     sig = rec.get("signature", "")
+    if sig.startswith("history-dependent:command-line"):
+        probe = Ctx("C12", "quick", "model_checking", technique="replay")
+        cli_history(probe)
+        return bool(probe.new_violations or probe.known_hit)
     if sig.startswith("history-dependent:configuration"):
         probe = Ctx("C12", "quick", "model_checking", technique="replay")
         config_history(probe)
